@@ -63,7 +63,8 @@ def fair_round(rng, sleep=None, name=EDS, ns=NS):
 def initial_store(rng, n, canary, tpl_image="img:1", name=EDS, ns=NS, annotations=None, plain=True):
     objs = node_objs(rng, n, plain)
     can = canary_spec(rng, n) if canary else None
-    e = K.eds(ns, name, K.template(image=tpl_image), strategy=strategy(rng, n, can), annotations=annotations or None,
+    import worldgen
+    e = K.eds(ns, name, K.template(image=tpl_image, labels=worldgen.template_labels(rng)), strategy=strategy(rng, n, can), annotations=annotations or None,
               status=K.eds_status())
     objs.append(e)
     return objs
@@ -97,6 +98,7 @@ def random_env_op(rng, n, images=("img:1", "img:2", "img:3"), allow_cmds=True, n
         # an untolerated taint, a standard one every daemon pod tolerates (cordon, node not ready), or none again
         return edit("Node", "", "n%d" % rng.randrange(n), rng.choice(["taint:dedicated=gpu:NoExecute", "untaint",
                                                                       "taint:node.kubernetes.io/unschedulable=:NoSchedule",
+                                                                      "taint:dedicated=infra:NoSchedule",
                                                                       "taint:node.kubernetes.io/not-ready=:NoExecute"]))
     if r < 0.8:
         return kubelet(rng.choice(["all", "ready", "finalize"]), rng.choice([0, 2, 3]))
